@@ -9,7 +9,7 @@ pub use self::recursive_page_table::{InvalidPageTable, RecursivePageTable};
 use crate::structures::paging::{
     frame_alloc::{FrameAllocator, FrameDeallocator},
     page::PageRangeInclusive,
-    page_table::PageTableFlags,
+    page_table::{self, PageTableFlags},
     Page, PageSize, PhysFrame, Size1GiB, Size2MiB, Size4KiB,
 };
 use crate::{PhysAddr, VirtAddr};
@@ -18,6 +18,14 @@ mod mapped_page_table;
 mod offset_page_table;
 #[cfg(all(feature = "instructions", target_arch = "x86_64"))]
 mod recursive_page_table;
+
+/// Returns the frame address stored in an entry that maps a 2MiB or 1GiB page.
+///
+/// Bit 12 of such an entry is the `PAT_HUGE_PAGE` flag and not part of the address.
+#[inline]
+fn huge_page_addr(entry: &page_table::PageTableEntry) -> PhysAddr {
+    PhysAddr::new(entry.addr().as_u64() & !PageTableFlags::PAT_HUGE_PAGE.bits())
+}
 
 /// An empty convencience trait that requires the `Mapper` trait for all page sizes.
 pub trait MapperAllSizes: Mapper<Size4KiB> + Mapper<Size2MiB> + Mapper<Size1GiB> {}
